@@ -399,7 +399,10 @@ def run(facts, res):
             return True     # a variant test written as a comparison of the discriminant (a joined Option / Result of the per-item steps)
         if l.kind == "call":
             n_ = callee_name(l.term)
-            if n_ in ("contains_key", "contains", "is_err", "is_none", "is_empty"):
+            if n_ in ("contains_key", "contains"):
+                # "not yet in the block map": absence from any other collection (a set of ids that failed before, a cache) is a selection
+                return l.truth is False and bool(l.term[2]) and "deltas" in field_path(l.term[2][0])[0]
+            if n_ in ("is_err", "is_none", "is_empty"):
                 return l.truth is False
             if n_ in ("is_ok", "is_some"):
                 return l.truth is True
@@ -422,8 +425,9 @@ def run(facts, res):
                 l0 = list(lits_of(body_, blk_, facts))
                 hd = [peel(l.term)[3] for l in l0 if l.kind == "variant" and l.variants == {"Some"} and callee_name(peel(l.term)) == "next"]
                 if hd:
-                    inside = _it4.loop_body_blocks(body_, hd[-1]) | {hd[-1]}
-                    return [l for l in l0 if not l.implied and l.block in inside]
+                    inside = _it4.loop_body_blocks(body_, hd[-1]) | {hd[-1]} | {
+                        l.block for l in l0 if l.kind == "variant" and callee_name(peel(l.term)) == "next" and peel(l.term)[3] == hd[-1]}
+                    return [l for l in l0 if l.block in inside]       # implied literals too: a test parked in a flag (`let is_new = ..`)
                 if body_.kind == "closure":
                     return [l for l in l0 if not l.implied]
                 return []
@@ -431,6 +435,24 @@ def run(facts, res):
             if s.body is not b and s.body.kind != "closure":
                 ls += per_item(s.outer_body, s.outer_block)     # a helper called from inside the loop
             extra = [repr(l) for l in unaccepted(ls, _reg_guard_ok)]
+            # ... and the loop runs over the whole listing: an adaptor that selects by position or stops at the first item failing a test
+            # (take_while, skip, take, ..) makes the registered set depend on the order of the listing; a filter is a per-item guard
+            from ..common import iter_chain as _ic4
+            from ..conds import closure_result_lits as _crl4
+            for l in ls:
+                if l.kind == "variant" and l.variants == {"Some"} and callee_name(peel(l.term)) == "next" and peel(l.term)[2]:
+                    ch_ = _ic4(peel(l.term)[2][0])
+                    sel_ = {callee_name(x) for x in ch_} & {"take", "skip", "step_by", "take_while", "skip_while", "map_while", "nth", "last", "find", "scan"}
+                    if sel_:
+                        extra.append("listing iterated through %s" % sorted(sel_))
+                    for x in ch_:
+                        if callee_name(x) == "filter" and len(x[2]) > 1:
+                            cl_ = next((y for y in walk(x[2][1]) if y[0] == "closure"), None)
+                            cb_ = facts.body(cl_[1]) if cl_ is not None else None
+                            if cb_ is None:
+                                extra.append("filter(<unresolved>)")
+                            else:
+                                extra += [repr(l2) for l2 in unaccepted(_crl4(cb_, facts, True), _reg_guard_ok)]
             res.instance("L4", "%s: a listed block is registered under per-item success / absence only: %s" % (name, not extra), s.loc())
             if extra:
                 res.violation("L4", "%s|listed-block-skipped-under-extra-condition" % name,
